@@ -445,6 +445,16 @@ def gen_fit_c12(rng, quick=True, recovery=False):
                     lo, hi = max(0.0, lo), min(1.0 if rng.random() < 0.8 else 1.5, hi if hi > hi_src else 1.0)
             if lo < start[name] < hi or (lo <= start[name] <= hi and name in fixed):
                 boxes[name] = [lo, hi]
+    outside = None
+    if not recovery and rng.random() < 0.1:
+        # a fixed parameter whose value lies outside its own limits (legal: set_values does not clamp):
+        # the fit may refuse it, but must never hand back another value for a fixed parameter
+        cands = [k for k in p if k.startswith("R")]
+        outside = rng.choice(cands)
+        if outside not in fixed:
+            fixed.append(outside)
+        boxes.pop(outside, None)
+        start[outside] = -abs(start[outside])  # below the default lower limit of 0 (the parser accepts it)
     for name in p:
         s = ""
         if name in fixed:
@@ -499,6 +509,7 @@ def gen_fit_c12(rng, quick=True, recovery=False):
         "fixed": fixed,
         "boxes": boxes,
         "bound_must_bite": bites,
+        "fixed_outside_limits": outside,
         "labelled": labelled,
         "recovery": bool(recovery),
         "data": {
